@@ -282,7 +282,7 @@ def _run(scn, res, wd):
     bump(res, 'sim_tstates', t)
     res['sigs'].append('%s|%s|%s|fl%s py%s cm%s|scr%s|%d' % (scn['kind'], scn['machine'], scn['tape_fmt'], c['fast-load'], c['python'], c['cmio'], int(scn['screen']), min(len(str(scn['size'])), 5)))
     h = hashlib.sha256()
-    h.update(text.encode())
+    h.update(text.replace(wd, '<wd>').encode())
     h.update(repr(st.get('regs')).encode())
     res['digest'] = h.hexdigest()
     return res
